@@ -120,6 +120,9 @@ SHAPES: list[dict[str, Any]] = [
     # signature, so whoever calls it must count the same parameters
     shape("wrapped_v2", WRAP + "@_deco\n" + fn(f"(node: IntExpr, {E}) -> None"), "either", ["IntExpr"]),
     shape("wrapped_v3", WRAP + "@_deco\n" + fn(f"(node: IntExpr, {E}, settings: Settings) -> None"), "either", ["IntExpr"], True),
+    # invalid signatures behind the same wrapper: still rejected at the check's own definition (its decorator line or its def line)
+    shape("wrapped_bad_node", WRAP + "@_deco\n" + fn(f"(node: int, {E}) -> None"), "invalid"),
+    shape("wrapped_bad_errors", WRAP + "@_deco\n" + fn("(node: IntExpr, errors: list) -> None"), "invalid"),
     shape("falsy", "check = 0\n", "nocheck"),
     shape("absent", "", "nocheck"),
     # in-process only (their bodies cannot run as a check)
@@ -198,6 +201,18 @@ def def_line(src: str) -> int:
         if line.startswith("def check") or line.startswith("check ="):
             return i
     return 0
+
+
+def def_lines(src: str) -> list[int]:
+    """the lines at which the definition of `check` may be located: its def line, or the line of its first decorator"""
+    lines = src.split("\n")
+    d = def_line(src)
+    out = [d]
+    k = d - 1
+    while k >= 1 and lines[k - 1].startswith("@"):
+        out.append(k)
+        k -= 1
+    return out
 
 
 # --------------------------------------------------------------------------------------------
@@ -619,7 +634,7 @@ def judge(world: dict[str, Any], wdir: Path, targets: list[str], flags: list[str
 
     must_reject = [d for d, n in sel.items() if SHAPE[n["shape"]]["spec"] == "invalid"]
     may_reject = [d for d, n in sel.items() if SHAPE[n["shape"]]["spec"] in ("invalid", "either")]
-    located = {f"{file_of(d)}:{def_line(leaf_source(leaves[d]))}": d for d in may_reject}
+    located = {f"{file_of(d)}:{ln}": d for d in may_reject for ln in def_lines(leaf_source(leaves[d]))}
     loc_m = re.match(r"^(.*?:\d+): (.+)$", other[0]) if len(other) == 1 else None
     rejected_by = located.get(loc_m.group(1)) if loc_m else None
 
